@@ -19,7 +19,7 @@ class NotEqualsContextManager(Contract):
     the negated templates are in force (when requested)"""
     id = "C15.TextQueryBackend.not_equals_context_manager"
     target = "sigma.conversion.base:TextQueryBackend.not_equals_context_manager"
-    props = ("C15", "C08", "C01")
+    props = ("C15", "C08", "C01", "C05", "C17")
     cases = ((True, "normal"), (True, "raises"), (False, "normal"), (False, "raises"))
     assumed = ["the with-body is abstract: it returns or raises an arbitrary exception at the yield point (contextlib.contextmanager semantics)"]
 
